@@ -241,4 +241,11 @@ def traceFaults (t : List (Outcome × Nat)) : List Outcome := (t.filter (fun e =
 
 def traceAccepted (t : List (Outcome × Nat)) : Option Nat := (t.find? (fun e => e.1 == .stored)).map (·.2)
 
+/-- gjkr accusation states run through their own `Initiate`: `MarkInactiveMembers` marks every operating
+    member other than the receiver that sent no message in the previous phase (`active` = senders of
+    the previous phase) as inactive, and only then the `accusers` snapshot is taken — a member that
+    went silent in the previous phase is already excluded when its accusation arrives. -/
+def markInactive (g : Group) (self : UInt8) (active : List Nat) : Group :=
+  { g with ia := g.ia ++ (memberIndexes g.size).filter (fun i => !(i == self) && !active.contains i.toNat) }
+
 end KeepVerif.C12
